@@ -42,6 +42,26 @@ theorem C10_no_write_after_cancel (s : St) (fail : Option Bool) (rest : List Sen
       (stepSender C10.full s).err = true ∧ (stepSender C10.full s).pending = 0 := by
   simp [stepSender, hs, hc, failSender, C10.full]
 
+/-- **Cancellation ends the call, and ends it closed**: at whatever point of whatever run the
+caller cancels (`env`), the three goroutines return within the bounded drain schedule, and —
+unless the server had already failed the query with an exception — the call fails and the client
+is closed once `Do` has finished. -/
+theorem C10_cancel_returns_closed (acts : List SendAct) (pkts : List SrvPkt) (sched : List Tid) (n : Nat)
+    (hn : senderLen (run C10.full (init acts pkts) (sched ++ [.env])) ≤ n) :
+    let s := run C10.full (init acts pkts) (sched ++ [.env] ++ drain n)
+    s.allDone = true ∧ (s.err = true → s.gotExc = false → (finish C10.full s).closed = true) := by
+  have hdead : (run C10.full (init acts pkts) (sched ++ [.env])).ctxDead = true := by
+    rw [run_append]; rfl
+  refine ⟨?_, ?_⟩
+  · rw [run_append]
+    exact returns_after_failure C10.full _ (left_run C10.full _ _ (left_init acts pkts)) hdead n hn
+  · intro he hx
+    generalize run C10.full (init acts pkts) (sched ++ [.env] ++ drain n) = s at *
+    unfold finish
+    by_cases hc : s.closed = true
+    · simp [hc]
+    · simp [he, hc, hx, C10.full]
+
 /-! ### non-vacuity: cancellation while a streamed insert waits for the server -/
 example : let s := finish C10.full (run C10.full (init [.encode 9, .flush none, .callback false, .encode 3, .flush none] [.ok])
     [.sender, .sender, .receiver, .env, .sender, .sender, .sender, .receiver, .watch, .receiver])
